@@ -228,12 +228,14 @@ ProceedRule == \A x \in IS : /\ (why[x] = "all") => Len(msgs[x]) = N
 \* what is proposed is the result function applied to the messages held at that time; it satisfies the documented rules
 ProposalOK == \A x \in IS : prop[x] # NoProp => CalcErr(prop[x].msgs) = None /\ prop[x].msgs[1].peer = x[1]
 \* (expensive: evaluated by the trace spec on what the implementation proposed, and by the thorough design check)
-ProposalCalcOK == \A x \in IS : prop[x] # NoProp =>
+ProposalCalcOKAt(x) == prop[x] # NoProp =>
                  /\ prop[x].topics = CalcTopics(prop[x].msgs)
                  /\ CalcOK(prop[x].msgs, prop[x])
+ProposalCalcOK == \A x \in IS : ProposalCalcOKAt(x)
 \* same inputs (as a set) => same result on every node
-SameInputsSameResult == \A x, y \in IS : (prop[x] # NoProp /\ prop[y] # NoProp /\ Range(prop[x].msgs) = Range(prop[y].msgs))
+SameInputsAt(x) == \A y \in IS : (prop[x] # NoProp /\ prop[y] # NoProp /\ Range(prop[x].msgs) = Range(prop[y].msgs))
                                             => prop[x].topics = prop[y].topics
+SameInputsSameResult == \A x \in IS : SameInputsAt(x)
 \* nodes that decide, decide the same, proposed, result
 DecidedOK == /\ \A a, b \in Range(outp) : a.slot = b.slot => a.topics = b.topics
              /\ \A a \in Range(outp) : \E x \in IS : x[2] = a.slot /\ prop[x] # NoProp /\ prop[x].topics = a.topics
